@@ -88,7 +88,14 @@ func pubKey(i int) (pk types.PublicKey) {
 }
 
 func sigHashN(j int) types.Hash256 { return types.Hash256(derive("sighash", j)) }
-func preimageN(i int) [32]byte     { return derive("pre", i) }
+
+// preimageN(0) is the all-zero secret (an uninitialised one): what a verifier holds in its hands when a witness is missing
+func preimageN(i int) [32]byte {
+	if i == 0 {
+		return [32]byte{}
+	}
+	return derive("pre", i)
+}
 func rawAddrN(i int) types.Address { return types.Address(derive("opaque", i)) }
 
 func (s SigSpec) sig() (out types.Signature) {
